@@ -21,6 +21,9 @@ pub struct AccessCase {
     pub recv: IRecv,
     pub c: u64,
     pub r: u64,
+    /// 0 = ordinary case; k > 0: the same coordinates on the k-th giant grid of `()` (crate::giant)
+    #[serde(default)]
+    pub giant: u8,
 }
 
 struct Probe {
@@ -150,38 +153,124 @@ fn probe_mut<X: TooDeeOpsMut<u32>>(x: &mut X, p: &Probe, tag: &str, written: &mu
     Ok(())
 }
 
-/// The same coordinate on an array and a window of a zero-sized element type: every checked
-/// accessor must panic exactly when the coordinate is out of range.
-fn zst_access(cols: usize, rows: usize, c: usize, r: usize) -> Verdict {
-    fn go<X: TooDeeOpsMut<()>>(x: &mut X, c: usize, r: usize, who: &str) -> Verdict {
-        let (nc, nr) = (x.num_cols(), x.num_rows());
-        let (in_c, in_r) = (c < nc, r < nr);
-        let chk = |res: Result<(), String>, ok: bool, what: &str| -> Verdict {
-            ensure!(res.is_ok() == ok, format!("zst/{}/{}", who, what), "{} with (col,row)=({},{}) on a {}x{} {} of a zero-sized element type: {} but should {}", what, c, r, nc, nr, who, if res.is_ok() { "returned" } else { "panicked" }, if ok { "return" } else { "panic" });
-            Ok(())
-        };
-        chk(catch(|| { let _ = &x[(c, r)]; }), in_c && in_r, "x[(col,row)]")?;
-        chk(catch(|| { let _ = x[r].len(); }), in_r, "x[row]")?;
-        chk(catch(|| { let _ = &x[r][c]; }), in_c && in_r, "x[row][col]")?;
-        chk(catch(|| { let _ = x.col(c).len(); }), in_c, "col(col)")?;
-        chk(catch(|| { let _ = &x.col(c)[r]; }), in_c && in_r, "col(col)[row]")?;
-        chk(catch(|| { x[(c, r)] = (); }), in_c && in_r, "x[(col,row)] = v")?;
-        chk(catch(|| { x.col_mut(c)[r] = (); }), in_c && in_r, "col_mut(col)[row] = v")?;
-        if in_r {
-            ensure!(x[r].len() == nc, format!("zst/{}/row-len", who), "x[{}] has length {} on a {}x{} {} of a zero-sized element type", r, x[r].len(), nc, nr, who);
-        }
+fn zst_go_shared<X: TooDeeOps<()>>(x: &X, c: usize, r: usize, who: &str) -> Verdict {
+    let (nc, nr) = (x.num_cols(), x.num_rows());
+    let (in_c, in_r) = (c < nc, r < nr);
+    let chk = |res: Result<(), String>, ok: bool, what: &str| -> Verdict {
+        ensure!(res.is_ok() == ok, format!("zst/{}/{}", who, what), "{} with (col,row)=({},{}) on a {}x{} {} of a zero-sized element type: {} but should {}{}", what, c, r, nc, nr, who, if res.is_ok() { "returned" } else { "panicked" }, if ok { "return" } else { "panic" }, res.as_ref().err().map(|m| format!(" [{}]", m)).unwrap_or_default());
         Ok(())
-    }
-    let mut z: TooDee<()> = if cols == 0 || rows == 0 { TooDee::default() } else { TooDee::init(cols, rows, ()) };
-    go(&mut z, c, r, "array")?;
-    if cols > 0 && rows > 0 {
-        let mut big: TooDee<()> = TooDee::init(cols + 2, rows + 2, ());
-        go(&mut big.view_mut((1, 1), (cols + 1, rows + 1)), c, r, "mutable view")?;
+    };
+    chk(catch(|| { let _ = &x[(c, r)]; }), in_c && in_r, "x[(col,row)]")?;
+    chk(catch(|| { let _ = x[r].len(); }), in_r, "x[row]")?;
+    chk(catch(|| { let _ = &x[r][c]; }), in_c && in_r, "x[row][col]")?;
+    chk(catch(|| { let _ = x.col(c).len(); }), in_c, "col(col)")?;
+    chk(catch(|| { let _ = &x.col(c)[r]; }), in_c && in_r, "col(col)[row]")?;
+    if in_r {
+        ensure!(x[r].len() == nc, format!("zst/{}/row-len", who), "x[{}] has length {} on a {}x{} {} of a zero-sized element type", r, x[r].len(), nc, nr, who);
     }
     Ok(())
 }
 
+fn zst_go<X: TooDeeOpsMut<()>>(x: &mut X, c: usize, r: usize, who: &str) -> Verdict {
+    zst_go_shared(&*x, c, r, who)?;
+    let (nc, nr) = (x.num_cols(), x.num_rows());
+    let (in_c, in_r) = (c < nc, r < nr);
+    let chk = |res: Result<(), String>, ok: bool, what: &str| -> Verdict {
+        ensure!(res.is_ok() == ok, format!("zst/{}/{}", who, what), "{} with (col,row)=({},{}) on a {}x{} {} of a zero-sized element type: {} but should {}{}", what, c, r, nc, nr, who, if res.is_ok() { "returned" } else { "panicked" }, if ok { "return" } else { "panic" }, res.as_ref().err().map(|m| format!(" [{}]", m)).unwrap_or_default());
+        Ok(())
+    };
+    chk(catch(|| { x[(c, r)] = (); }), in_c && in_r, "x[(col,row)] = v")?;
+    chk(catch(|| { x[r][c] = (); }), in_c && in_r, "x[row][col] = v")?;
+    chk(catch(|| { let _ = x.col_mut(c).len(); }), in_c, "col_mut(col)")?;
+    chk(catch(|| { x.col_mut(c)[r] = (); }), in_c && in_r, "col_mut(col)[row] = v")?;
+    Ok(())
+}
+
+/// The same coordinate on an array and a window of a zero-sized element type: every checked
+/// accessor must panic exactly when the coordinate is out of range.
+fn zst_access(cols: usize, rows: usize, c: usize, r: usize) -> Verdict {
+    let mut z: TooDee<()> = if cols == 0 || rows == 0 { TooDee::default() } else { TooDee::init(cols, rows, ()) };
+    zst_go(&mut z, c, r, "array")?;
+    if cols > 0 && rows > 0 {
+        let mut big: TooDee<()> = TooDee::init(cols + 2, rows + 2, ());
+        zst_go(&mut big.view_mut((1, 1), (cols + 1, rows + 1)), c, r, "mutable view")?;
+    }
+    Ok(())
+}
+
+/// window of a giant grid: margins are clamped so that the window is never empty
+pub fn giant_window(gc: usize, gr: usize, m: [u8; 4]) -> ((usize, usize), (usize, usize)) {
+    let s = ((m[0] as usize).min(gc - 1), (m[1] as usize).min(gr - 1));
+    let e = ((gc - (m[2] as usize).min(gc)).max(s.0 + 1), (gr - (m[3] as usize).min(gr)).max(s.1 + 1));
+    (s, e)
+}
+
+/// The coordinate on the k-th giant grid of `()` (cell counts next to usize::MAX): the index
+/// arithmetic must neither overflow for in-range coordinates nor wrap back into range for
+/// out-of-range ones.
+fn giant_access(k: &AccessCase, ctx: &mut Ctx) -> Verdict {
+    let (gc, gr) = crate::giant::shape(k.giant);
+    let (c, r) = (k.c as usize, k.r as usize);
+    let mut z = crate::giant::owned(gc, gr);
+    let tag;
+    match k.recv {
+        IRecv::M(rv) => match rv.kind {
+            RecvKind::Owned => {
+                tag = "giant/owned";
+                zst_go(&mut z, c, r, "giant array")?;
+            }
+            RecvKind::Thin => {
+                tag = "giant/third-party";
+                zst_go(&mut Thin::new(&mut z), c, r, "giant third-party wrapper")?;
+            }
+            RecvKind::SliceMut => {
+                tag = "giant/view_mut over slice";
+                zst_go(&mut TooDeeViewMut::new(gc, gr, z.data_mut()), c, r, "giant view_mut over a slice")?;
+            }
+            RecvKind::ViewMut | RecvKind::ThinView => {
+                tag = "giant/view_mut";
+                let (s, e) = giant_window(gc, gr, rv.m);
+                zst_go(&mut z.view_mut(s, e), c, r, "giant mutable view")?;
+            }
+            RecvKind::Nested => {
+                tag = "giant/nested view_mut";
+                let (s, e) = giant_window(gc, gr, rv.m);
+                let mut v1 = z.view_mut(s, e);
+                let (c1, r1) = v1.size();
+                let (s2, e2) = giant_window(c1, r1, rv.m2);
+                zst_go(&mut v1.view_mut(s2, e2), c, r, "giant nested mutable view")?;
+            }
+        },
+        IRecv::View(m) => {
+            tag = "giant/view";
+            let (s, e) = giant_window(gc, gr, m);
+            zst_go_shared(&z.view(s, e), c, r, "giant view")?;
+        }
+        IRecv::NestedView(m, m2) | IRecv::ViewOfViewMut(m, m2) => {
+            tag = "giant/nested view";
+            let (s, e) = giant_window(gc, gr, m);
+            let v1 = z.view(s, e);
+            let (c1, r1) = v1.size();
+            let (s2, e2) = giant_window(c1, r1, m2);
+            zst_go_shared(&v1.view(s2, e2), c, r, "giant nested view")?;
+        }
+        IRecv::Slice(slack) => {
+            tag = "giant/view over slice";
+            let n = (gc * gr).saturating_add(slack as usize);
+            zst_go_shared(&TooDeeView::new(gc, gr, &crate::giant::UNITS[..n]), c, r, "giant view over a slice")?;
+        }
+    }
+    ctx.nt();
+    ctx.class("giant-unit-grid");
+    ctx.class(tag);
+    ctx.class(if c < gc && r < gr { "giant/coord-in-range" } else { "giant/coord-out-of-range" });
+    Ok(())
+}
+
 pub fn exec_access(k: &AccessCase, ctx: &mut Ctx) -> Verdict {
+    if k.giant > 0 {
+        return giant_access(k, ctx);
+    }
     if k.cols <= 6 && k.rows <= 6 && (k.c.wrapping_add(k.r)) % 3 == 0 {
         zst_access(k.cols as usize, k.rows as usize, k.c as usize, k.r as usize)?;
         ctx.class("zero-sized-companion");
@@ -242,22 +331,38 @@ pub fn exec_access(k: &AccessCase, ctx: &mut Ctx) -> Verdict {
         (None, 1) => {
             tag = "view";
             probe_shared(&parent.view(lay.s1, lay.e1), &p, tag)?;
+            // an explicit clone of a view (and a copy) denotes the same cells
+            #[allow(clippy::clone_on_copy)]
+            let cl = parent.view(lay.s1, lay.e1).clone();
+            probe_shared(&cl, &p, "view.clone()")?;
+            let v = parent.view(lay.s1, lay.e1);
+            let cp = v;
+            probe_shared(&cp, &p, "copy of view")?;
         }
         (None, 2) => {
             tag = "nested view";
             let v1 = parent.view(lay.s1, lay.e1);
             probe_shared(&v1.view(lay.s2, lay.e2), &p, tag)?;
+            #[allow(clippy::clone_on_copy)]
+            let cl = v1.clone();
+            probe_shared(&cl.view(lay.s2, lay.e2).clone(), &p, "nested view.clone()")?;
         }
         (None, 3) => {
             tag = "view of view_mut";
             let v1 = parent.view_mut(lay.s1, lay.e1);
             probe_shared(&v1.view(lay.s2, lay.e2), &p, tag)?;
+            probe_shared(&v1.view(lay.s2, lay.e2).clone(), &p, "view of view_mut .clone()")?;
+            // From<TooDeeViewMut> for TooDeeView keeps the window
+            let v1 = parent.view_mut(lay.s1, lay.e1);
+            let sh: TooDeeView<'_, u32> = v1.into();
+            probe_shared(&sh.view(lay.s2, lay.e2), &p, "TooDeeView::from(view_mut)")?;
         }
         _ => {
             tag = "view over slice";
             {
                 let v = TooDeeView::new(lay.c, lay.r, &buf[..]);
                 probe_shared(&v, &p, tag)?;
+                probe_shared(&v.clone(), &p, "view over slice .clone()")?;
             }
             let mut v = TooDeeViewMut::new(lay.c, lay.r, &mut buf[..]);
             probe_mut(&mut v, &p, "view_mut over slice", &mut written)?;
@@ -290,6 +395,32 @@ pub fn exec_access(k: &AccessCase, ctx: &mut Ctx) -> Verdict {
         "coord-past-dim"
     });
     Ok(())
+}
+
+/// (window cols, window rows, stride) of the receiver `recv` on the g-th giant grid
+pub fn giant_dims(g: u8, recv: &IRecv) -> (usize, usize, usize) {
+    let (gc, gr) = crate::giant::shape(g);
+    let win = |c: usize, r: usize, m: [u8; 4]| {
+        let (s, e) = giant_window(c, r, m);
+        (e.0 - s.0, e.1 - s.1)
+    };
+    let (wc, wr) = match *recv {
+        IRecv::M(rv) => match rv.kind {
+            RecvKind::Owned | RecvKind::Thin | RecvKind::SliceMut => (gc, gr),
+            RecvKind::ViewMut | RecvKind::ThinView => win(gc, gr, rv.m),
+            RecvKind::Nested => {
+                let (c1, r1) = win(gc, gr, rv.m);
+                win(c1, r1, rv.m2)
+            }
+        },
+        IRecv::View(m) => win(gc, gr, m),
+        IRecv::NestedView(m, m2) | IRecv::ViewOfViewMut(m, m2) => {
+            let (c1, r1) = win(gc, gr, m);
+            win(c1, r1, m2)
+        }
+        IRecv::Slice(_) => (gc, gr),
+    };
+    (wc, wr, gc)
 }
 
 fn coord_values(dim: usize, stride: usize, rows: usize) -> Vec<u64> {
@@ -338,8 +469,19 @@ impl Prop for C02 {
                     };
                     for c in coord_values(lay.c, lay.pc, lay.r) {
                         for r in coord_values(lay.r, lay.pc, lay.r) {
-                            emit(AccessCase { cols, rows, recv, c, r });
+                            emit(AccessCase { cols, rows, recv, c, r, giant: 0 });
                         }
+                    }
+                }
+            }
+        }
+        // giant grids of `()`: 20 shapes x 6 receivers x ~20 coordinates per axis
+        for g in 1..=crate::giant::SHAPES.len() as u8 {
+            for recv in [IRecv::M(Recv::owned()), IRecv::M(Recv::view([1, 1, 1, 1])), IRecv::M(Recv::view([0, 2, 0, 0])), IRecv::View([2, 0, 1, 1]), IRecv::NestedView([1, 1, 0, 0], [1, 0, 1, 1]), IRecv::Slice(2)] {
+                let (wc, wr, stride) = giant_dims(g, &recv);
+                for c in crate::giant::coords(wc, stride) {
+                    for r in crate::giant::coords(wr, stride) {
+                        emit(AccessCase { cols: 0, rows: 0, recv, c, r, giant: g });
                     }
                 }
             }
@@ -369,16 +511,22 @@ impl Prop for C02 {
                 7 => (1u64..48, 1u64..4, 0u64..2).prop_map(|(s, j, e)| ((((1u128 << 64) + s as u128 - 1) / s as u128 * j as u128 + e as u128) & u64::MAX as u128) as u64),
             ]
         };
-        (0u8..=40, 0u8..=40, recv)
+        let small = (0u8..=40, 0u8..=40, recv.clone())
             .prop_flat_map(move |(cols, rows, recv)| {
                 let (cols, rows) = if cols == 0 || rows == 0 { (0, 0) } else { (cols, rows) };
-                (coord(cols), coord(rows)).prop_map(move |(c, r)| AccessCase { cols, rows, recv, c, r })
-            })
-            .boxed()
+                (coord(cols), coord(rows)).prop_map(move |(c, r)| AccessCase { cols, rows, recv, c, r, giant: 0 })
+            });
+        let giant = (1u8..=crate::giant::SHAPES.len() as u8, recv, any::<u8>(), any::<u8>()).prop_map(|(g, recv, ci, ri)| {
+            let (wc, wr, stride) = giant_dims(g, &recv);
+            AccessCase { cols: 0, rows: 0, recv, c: crate::giant::coord(wc, stride, ci), r: crate::giant::coord(wr, stride, ri), giant: g }
+        });
+        prop_oneof![24 => small, 1 => giant].boxed()
     }
     fn fuzz_sanitize(k: &mut AccessCase) -> bool {
         k.cols %= 9;
         k.rows %= 9;
+        // one input in eight addresses a giant grid
+        k.giant = if k.giant < 224 { 0 } else { k.giant - 223 };
         let fix = |m: &mut [u8; 4]| m.iter_mut().for_each(|x| *x %= 4);
         match &mut k.recv {
             IRecv::M(rv) => {
@@ -401,7 +549,7 @@ impl Prop for C02 {
         exec_access(k, ctx)
     }
     fn essential_classes() -> &'static [&'static str] {
-        &["coord-in-range", "coord-equals-dim", "coord-past-dim", "coord-huge", "coord-wrapping-the-stride-product", "owned", "view", "view_mut", "nested view_mut", "third-party", "view over slice"]
+        &["coord-in-range", "coord-equals-dim", "coord-past-dim", "coord-huge", "coord-wrapping-the-stride-product", "owned", "view", "view_mut", "nested view_mut", "third-party", "view over slice", "giant-unit-grid", "giant/coord-in-range", "giant/coord-out-of-range", "giant/owned", "giant/view", "giant/view_mut"]
     }
 }
 
@@ -430,6 +578,9 @@ pub struct WindowCase {
     pub rows: u8,
     pub root: Root,
     pub chain: Vec<Level>,
+    /// 0 = ordinary case; k > 0: the chain is applied to the k-th giant grid of `()`
+    #[serde(default)]
+    pub giant: u8,
 }
 
 struct Walk<'a> {
@@ -564,7 +715,106 @@ fn zst_window(cols: usize, rows: usize, lv: &Level) -> Verdict {
     }
 }
 
+/// The chain on a giant grid of `()`: validity, size and the corners of every level.
+fn giant_walk<X: TooDeeOps<()>>(x: &X, chain: &[Level], depth: usize, rejected: &mut bool) -> Verdict {
+    let Some(lv) = chain.first() else { return Ok(()) };
+    let (c, r) = x.size();
+    let w = lv.win;
+    let valid = window_valid(w, c, r);
+    let (s, e) = ((w[0] as usize, w[1] as usize), (w[2] as usize, w[3] as usize));
+    match (catch(|| x.view(s, e)), valid) {
+        (Err(_), false) => {
+            *rejected = true;
+            Ok(())
+        }
+        (Ok(v), false) => fail!("giant/invalid-window-accepted", "level {}: invalid window {:?}..{:?} of a {}x{} grid of a zero-sized element type returned a view of size {:?}", depth, s, e, c, r, v.size()),
+        (Err(m), true) => fail!("giant/valid-window-panicked", "level {}: valid window {:?}..{:?} of a {}x{} grid of a zero-sized element type panicked: {}", depth, s, e, c, r, m),
+        (Ok(v), true) => {
+            let (mut ec, mut er) = (e.0 - s.0, e.1 - s.1);
+            if ec == 0 || er == 0 {
+                ec = 0;
+                er = 0;
+            }
+            ensure!(v.size() == (ec, er) && v.num_cols() == ec && v.num_rows() == er, "giant/window-size", "level {}: window {:?}..{:?} of a {}x{} grid of a zero-sized element type has size {:?}, expected ({},{})", depth, s, e, c, r, v.size(), ec, er);
+            if ec > 0 {
+                let last = catch(|| {
+                    let _ = &v[(ec - 1, er - 1)];
+                    let _ = &v[(0, 0)];
+                    (v[er - 1].len(), v[0].len())
+                });
+                ensure!(last == Ok((ec, ec)), "giant/window-corner", "level {}: window {:?}..{:?} of a {}x{} grid of a zero-sized element type: its corner cells / rows are not accessible: {:?}", depth, s, e, c, r, last);
+            }
+            let past = catch(|| {
+                let _ = &v[(ec, 0)];
+            });
+            let past2 = catch(|| {
+                let _ = &v[(0, er)];
+            });
+            ensure!(past.is_err() && past2.is_err(), "giant/window-past-corner", "level {}: window {:?}..{:?} of a {}x{} grid of a zero-sized element type accepts a coordinate equal to its size", depth, s, e, c, r);
+            giant_walk(&v, &chain[1..], depth + 1, rejected)
+        }
+    }
+}
+
+fn giant_walk_mut<X: TooDeeOpsMut<()>>(x: &mut X, chain: &[Level], depth: usize, rejected: &mut bool) -> Verdict {
+    let Some(lv) = chain.first() else { return Ok(()) };
+    if !lv.mutable {
+        return giant_walk(&*x, chain, depth, rejected);
+    }
+    let (c, r) = x.size();
+    let w = lv.win;
+    let valid = window_valid(w, c, r);
+    let (s, e) = ((w[0] as usize, w[1] as usize), (w[2] as usize, w[3] as usize));
+    match (catch(|| x.view_mut(s, e)), valid) {
+        (Err(_), false) => {
+            *rejected = true;
+            Ok(())
+        }
+        (Ok(v), false) => fail!("giant/invalid-window-accepted", "level {}: invalid mutable window {:?}..{:?} of a {}x{} grid of a zero-sized element type returned a view of size {:?}", depth, s, e, c, r, v.size()),
+        (Err(m), true) => fail!("giant/valid-window-panicked", "level {}: valid mutable window {:?}..{:?} of a {}x{} grid of a zero-sized element type panicked: {}", depth, s, e, c, r, m),
+        (Ok(mut v), true) => {
+            let (mut ec, mut er) = (e.0 - s.0, e.1 - s.1);
+            if ec == 0 || er == 0 {
+                ec = 0;
+                er = 0;
+            }
+            ensure!(v.size() == (ec, er), "giant/window-size", "level {}: mutable window {:?}..{:?} of a {}x{} grid of a zero-sized element type has size {:?}, expected ({},{})", depth, s, e, c, r, v.size(), ec, er);
+            if ec > 0 {
+                let last = catch(|| {
+                    v[(ec - 1, er - 1)] = ();
+                    v[er - 1][0] = ();
+                });
+                ensure!(last.is_ok(), "giant/window-corner", "level {}: mutable window {:?}..{:?} of a {}x{} grid of a zero-sized element type: its last cell is not writable: {:?}", depth, s, e, c, r, last);
+            }
+            let past = catch(|| v[(ec, er.saturating_sub(1))] = ());
+            ensure!(past.is_err(), "giant/window-past-corner", "level {}: mutable window {:?}..{:?} of a {}x{} grid of a zero-sized element type accepts a write at column {}", depth, s, e, c, r, ec);
+            giant_walk_mut(&mut v, &chain[1..], depth + 1, rejected)
+        }
+    }
+}
+
+fn giant_window_case(k: &WindowCase, ctx: &mut Ctx) -> Verdict {
+    let (gc, gr) = crate::giant::shape(k.giant);
+    let mut rejected = false;
+    match k.root {
+        Root::Owned => giant_walk_mut(&mut crate::giant::owned(gc, gr), &k.chain, 1, &mut rejected)?,
+        Root::Thin => giant_walk_mut(&mut Thin::new(&mut crate::giant::owned(gc, gr)), &k.chain, 1, &mut rejected)?,
+        Root::SliceView(s) => giant_walk(&TooDeeView::new(gc, gr, &crate::giant::UNITS[..(gc * gr).saturating_add(s as usize)]), &k.chain, 1, &mut rejected)?,
+        Root::SliceViewMut(s) => {
+            let mut v = vec![(); (gc * gr).saturating_add(s as usize)];
+            giant_walk_mut(&mut TooDeeViewMut::new(gc, gr, &mut v[..]), &k.chain, 1, &mut rejected)?
+        }
+    }
+    ctx.nt();
+    ctx.class("giant-unit-grid");
+    ctx.class(if rejected { "giant/invalid-window-panics" } else { "giant/valid-window" });
+    Ok(())
+}
+
 pub fn exec_window(k: &WindowCase, ctx: &mut Ctx) -> Verdict {
+    if k.giant > 0 {
+        return giant_window_case(k, ctx);
+    }
     if let (Some(lv), true) = (k.chain.first(), matches!(k.root, Root::Owned | Root::Thin)) {
         if k.cols <= 6 && k.rows <= 6 {
             zst_window(k.cols as usize, k.rows as usize, lv)?;
@@ -621,6 +871,38 @@ pub fn exec_window(k: &WindowCase, ctx: &mut Ctx) -> Verdict {
     Ok(())
 }
 
+/// resolve symbolic bounds level by level against the giant grid's (shrinking) size
+fn giant_chain(g: u8, root: Root, lvls: &[(bool, [u8; 4])]) -> WindowCase {
+    let (mut c, mut r) = crate::giant::shape(g);
+    let mut chain = Vec::new();
+    let mut mutable_ok = !matches!(root, Root::SliceView(_));
+    for &(m, b) in lvls {
+        let (a0, a1) = (crate::giant::bound(c, b[0]), crate::giant::bound(c, b[2]));
+        let (b0, b1) = (crate::giant::bound(r, b[1]), crate::giant::bound(r, b[3]));
+        // mostly ordered bounds
+        let (x0, x1) = if b[0] % 5 != 0 { (a0.min(a1), a0.max(a1)) } else { (a0, a1) };
+        let (y0, y1) = if b[1] % 5 != 0 { (b0.min(b1), b0.max(b1)) } else { (b0, b1) };
+        let win = [x0 as u64, y0 as u64, x1 as u64, y1 as u64];
+        let mutable = m && mutable_ok;
+        if !mutable {
+            mutable_ok = false;
+        }
+        chain.push(Level { mutable, win });
+        if !window_valid(win, c, r) {
+            break;
+        }
+        let (ec, er) = (x1 - x0, y1 - y0);
+        if ec == 0 || er == 0 {
+            c = 0;
+            r = 0;
+        } else {
+            c = ec;
+            r = er;
+        }
+    }
+    WindowCase { cols: 0, rows: 0, root, chain, giant: g }
+}
+
 pub struct C03;
 impl Prop for C03 {
     type Case = WindowCase;
@@ -648,17 +930,44 @@ impl Prop for C03 {
                             for x1 in 0..=c + 1 {
                                 for y0 in 0..=r + 1 {
                                     for y1 in 0..=r + 1 {
-                                        emit(WindowCase { cols, rows, root, chain: vec![Level { mutable, win: [x0, y0, x1, y1] }] });
+                                        emit(WindowCase { cols, rows, root, chain: vec![Level { mutable, win: [x0, y0, x1, y1] }], giant: 0 });
                                     }
                                 }
                             }
                         }
                         for h in [u64::MAX, u64::MAX / 2 + 1, 1 << 32] {
-                            emit(WindowCase { cols, rows, root, chain: vec![Level { mutable, win: [0, 0, h, r] }] });
-                            emit(WindowCase { cols, rows, root, chain: vec![Level { mutable, win: [0, 0, c, h] }] });
-                            emit(WindowCase { cols, rows, root, chain: vec![Level { mutable, win: [h, 0, h, r] }] });
-                            emit(WindowCase { cols, rows, root, chain: vec![Level { mutable, win: [0, h, c, h] }] });
-                            emit(WindowCase { cols, rows, root, chain: vec![Level { mutable, win: [h, h, h, h] }] });
+                            emit(WindowCase { cols, rows, root, chain: vec![Level { mutable, win: [0, 0, h, r] }], giant: 0 });
+                            emit(WindowCase { cols, rows, root, chain: vec![Level { mutable, win: [0, 0, c, h] }], giant: 0 });
+                            emit(WindowCase { cols, rows, root, chain: vec![Level { mutable, win: [h, 0, h, r] }], giant: 0 });
+                            emit(WindowCase { cols, rows, root, chain: vec![Level { mutable, win: [0, h, c, h] }], giant: 0 });
+                            emit(WindowCase { cols, rows, root, chain: vec![Level { mutable, win: [h, h, h, h] }], giant: 0 });
+                        }
+                    }
+                }
+            }
+        }
+        // giant grids of `()`: depth 1 exhaustive over the symbolic bounds, depth 2 inside two fixed outer windows
+        for g in 1..=crate::giant::SHAPES.len() as u8 {
+            for (root, mutable) in [(Root::Owned, false), (Root::Owned, true), (Root::SliceView(1), false)] {
+                for x0 in 0..crate::giant::BOUNDS {
+                    for x1 in 0..crate::giant::BOUNDS {
+                        for y0 in 0..crate::giant::BOUNDS {
+                            for y1 in 0..crate::giant::BOUNDS {
+                                let (gc, gr) = crate::giant::shape(g);
+                                let win = [crate::giant::bound(gc, x0) as u64, crate::giant::bound(gr, y0) as u64, crate::giant::bound(gc, x1) as u64, crate::giant::bound(gr, y1) as u64];
+                                emit(WindowCase { cols: 0, rows: 0, root, chain: vec![Level { mutable, win }], giant: g });
+                            }
+                        }
+                    }
+                }
+            }
+            for outer in [[1u8, 1, 7, 7], [0, 2, 6, 7], [3, 0, 7, 5]] {
+                for x0 in [0u8, 1, 6, 7] {
+                    for y0 in [0u8, 1, 6, 7] {
+                        for x1 in [6u8, 7, 8] {
+                            for y1 in [6u8, 7, 8] {
+                                emit(giant_chain(g, Root::Owned, &[(true, outer), (x0 % 2 == 0, [x0, y0, x1, y1])]));
+                            }
                         }
                     }
                 }
@@ -677,9 +986,9 @@ impl Prop for C03 {
                             for x1 in 0..=oc + 1 {
                                 for y0 in 0..=or + 1 {
                                     for y1 in 0..=or + 1 {
-                                        emit(WindowCase { cols, rows, root, chain: vec![Level { mutable: m1, win: outer }, Level { mutable: m2, win: [x0, y0, x1, y1] }] });
+                                        emit(WindowCase { cols, rows, root, chain: vec![Level { mutable: m1, win: outer }, Level { mutable: m2, win: [x0, y0, x1, y1] }], giant: 0 });
                                         if x0 <= x1 && y0 <= y1 && x1 <= oc && y1 <= or && x1 - x0 >= 1 && y1 - y0 >= 1 {
-                                            emit(WindowCase { cols, rows, root, chain: vec![Level { mutable: m1, win: outer }, Level { mutable: m2, win: [x0, y0, x1, y1] }, Level { mutable: m2, win: [(x1 - x0) / 2, 0, x1 - x0, y1 - y0] }] });
+                                            emit(WindowCase { cols, rows, root, chain: vec![Level { mutable: m1, win: outer }, Level { mutable: m2, win: [x0, y0, x1, y1] }, Level { mutable: m2, win: [(x1 - x0) / 2, 0, x1 - x0, y1 - y0] }], giant: 0 });
                                         }
                                     }
                                 }
@@ -694,7 +1003,7 @@ impl Prop for C03 {
         // each level is generated as fractions of the previous level's size, so that it is
         // valid with high probability; a few are pushed just outside or far outside
         let lvl = || (any::<bool>(), any::<[u16; 4]>(), prop_oneof![12 => Just(0u8), 1 => Just(1u8), 1 => Just(2u8), 1 => Just(3u8)], prop::bool::weighted(0.25));
-        (prop_oneof![49 => 0u8..=12, 1 => 0u8..=100], prop_oneof![49 => 0u8..=12, 1 => 0u8..=100], prop_oneof![4 => Just(Root::Owned), 1 => Just(Root::Thin), 1 => (0u8..6).prop_map(Root::SliceView), 2 => (0u8..6).prop_map(Root::SliceViewMut)], prop::collection::vec(lvl(), 1..=3))
+        let small = (prop_oneof![49 => 0u8..=12, 1 => 0u8..=100], prop_oneof![49 => 0u8..=12, 1 => 0u8..=100], prop_oneof![4 => Just(Root::Owned), 1 => Just(Root::Thin), 1 => (0u8..6).prop_map(Root::SliceView), 2 => (0u8..6).prop_map(Root::SliceViewMut)], prop::collection::vec(lvl(), 1..=3))
             .prop_map(|(cols, rows, root, lvls)| {
                 let (cols, rows) = if cols == 0 || rows == 0 { (0, 0) } else { (cols, rows) };
                 let (mut c, mut r) = (cols as u64, rows as u64);
@@ -738,14 +1047,18 @@ impl Prop for C03 {
                         r = er;
                     }
                 }
-                WindowCase { cols, rows, root, chain }
-            })
-            .boxed()
+                WindowCase { cols, rows, root, chain, giant: 0 }
+            });
+        // giant grids: every level picks its bounds from {0,1,2,d/3,d/2,d-2,d-1,d,d+1,MAX,MAX/2+1} of the previous level
+        let glvl = || (any::<bool>(), [0u8..crate::giant::BOUNDS, 0u8..crate::giant::BOUNDS, 0u8..crate::giant::BOUNDS, 0u8..crate::giant::BOUNDS]);
+        let giant = (1u8..=crate::giant::SHAPES.len() as u8, prop_oneof![4 => Just(Root::Owned), 1 => Just(Root::Thin), 1 => (0u8..3).prop_map(Root::SliceView), 1 => (0u8..3).prop_map(Root::SliceViewMut)], prop::collection::vec(glvl(), 1..=3)).prop_map(|(g, root, lvls)| giant_chain(g, root, &lvls));
+        prop_oneof![24 => small, 1 => giant].boxed()
     }
     fn fuzz_sanitize(k: &mut WindowCase) -> bool {
         k.cols %= 9;
         k.rows %= 9;
         k.chain.truncate(4);
+        k.giant = if k.giant < 224 { 0 } else { k.giant - 223 };
         let mut shared = matches!(k.root, Root::SliceView(_));
         for l in k.chain.iter_mut() {
             if shared {
@@ -768,6 +1081,6 @@ impl Prop for C03 {
         exec_window(k, ctx)
     }
     fn essential_classes() -> &'static [&'static str] {
-        &["zero-extent-at-far-edge", "invalid-window-panics", "window-smaller-than-parent", "depth-1", "depth-2", "depth-3", "root-Owned", "root-SliceView", "root-SliceViewMut", "root-Thin"]
+        &["zero-extent-at-far-edge", "invalid-window-panics", "window-smaller-than-parent", "depth-1", "depth-2", "depth-3", "root-Owned", "root-SliceView", "root-SliceViewMut", "root-Thin", "giant-unit-grid", "giant/valid-window", "giant/invalid-window-panics"]
     }
 }
